@@ -601,6 +601,29 @@ func (c *Ctx) errSources(fn *ssa.Function, seen map[*ssa.Function]bool) map[stri
 							trace(st.Val, vs)
 						}
 					}
+				} else if f := fieldOfAddr(x.X); f != nil && isErrorType(f.Type()) {
+					// load of an error kept in a field: everything stored there (nil elsewhere, traced here)
+					for _, g := range c.allFuncs {
+						if g.Pkg != c.lz || g.Blocks == nil {
+							continue
+						}
+						for _, gb := range g.Blocks {
+							for _, gin := range gb.Instrs {
+								st, ok := gin.(*ssa.Store)
+								if !ok || fieldOfAddr(st.Addr) != f {
+									continue
+								}
+								if k, isC := st.Val.(*ssa.Const); isC && k.Value == nil {
+									continue
+								}
+								if g == fn {
+									trace(st.Val, vs)
+								} else {
+									out["?field-store:"+fnName(g)] = true
+								}
+							}
+						}
+					}
 				} else {
 					out["?load"] = true
 				}
